@@ -8,7 +8,9 @@ Fragments::new) and Encaps.tla (the helper as a state machine adding frame after
 2. Gen_Encaps: TLC enumerates frame lists x fragment sizes (premise: several frames =>
    one fragment per frame, as documented) and small native images.  drv_encaps runs
    Fragments::new + From<Vec<Fragments>>, encapsulate, encapsulate_single_frame, and
-   transcodes every image into every registered transfer syntax with an encoder; it
+   transcodes every image into every registered transfer syntax with an encoder, and builds
+   hand-assembled fragment sequences (1-3 fragments per frame, exact offset table) whose
+   frames are retrieved in memory and after a write/read round trip; it
    writes each object to bytes and locates the real item positions; plus seeded random
    inputs (1-16 frames).
 3. Trace_Encaps (TLC) judges every recorded event with the property-level operators:
@@ -79,6 +81,15 @@ def run(ctx):
                 ctx.violation("from_vec: %s (frame of 16 MiB or more)" % NAMES.get(w, w),
                               "event %d: frame_len=%s frag_size=%s fragment runs=%s total=%s probes=%s" % (
                                   ln, e["frame_len"], e["frag_size"], e["runs"], e["total"], e["probes"]),
+                              {"event": e, "failed_checks": why})
+            continue
+        if e["ev"] == "assembled":
+            for w in why:
+                ctx.violation("hand-assembled fragment sequence (several fragments per frame, exact offset table): %s" % (
+                                  "frame_pixel_data after write/read differs from the frame's fragment bytes" if w == "fpd_reread" else NAMES.get(w, w)),
+                              "event %d: fragments per frame %s, offset table %s, frame_pixel_data lengths %s (re-read %s)" % (
+                                  ln, [len(g) for g in e["groups"]], e["bot"], [len(x.get("data", [])) for x in e["fpd"]],
+                                  [len(x.get("data", [])) for x in e["fpd_reread"]]),
                               {"event": e, "failed_checks": why})
             continue
         what = e.get("api") if e["ev"] == "helper" else "transcode to " + str(e.get("ts_name"))
